@@ -990,3 +990,92 @@ _jobs_tuple = jobs
 def jobs(tier):
     pats = [(1, 1), (0, 1, 0), (1, 2), ()] if tier == 'quick' else [p for n in (0, 1, 2, 3) for p in itertools.product((0, 1, 2), repeat=n)]
     return _jobs_tuple(tier) + [(h_tuple_endtuple, (p,), 900) for p in pats]
+
+
+@guard
+def h_tuple_begintuple(n):
+    """TupleBuilder::begintuple(n) on a fresh tuple builder: a negative number of fields is refused (it can match no tuple and must not be handed
+    on to a new union member for ever); otherwise the builder gets n fresh field builders and an open tuple with no field selected"""
+    from .cpp01 import struct_of
+    slots, nslots = builder_slots()
+    mod = module_of(TB)
+    fo, sz, al, fields = mod.types.struct_layout(struct_of(mod, '_ZN7awkward12TupleBuilder5indexEl'))
+    stubs = dict(COMMON_STUBS)
+    stubs.update(_child_stubs(slots))
+    handed = []
+
+    def s_fromsingle(eng, fr, ins, st, name, argv):
+        handed.append(st.pc)
+        rec = st.mem.o[argv[0].obj]
+        rec.cells[argv[0].off] = (Ptr('other', 0), 8); rec.cells[argv[0].off + 8] = (NULL, 8)
+        return None
+
+    def s_begintuple(eng, fr, ins, st, name, argv):
+        rec = st.mem.o[argv[0].obj]
+        rec.cells[argv[0].off] = (Ptr('other', 0), 8); rec.cells[argv[0].off + 8] = (NULL, 8)
+        return None
+    stubs['_ZN7awkward12UnionBuilder10fromsingle*'] = s_fromsingle
+    stubs['vf$slot%d' % slots['10begintupleEl']] = s_begintuple
+    stubs['_ZN7awkward14UnknownBuilder9fromempty*'] = s_begintuple
+    m = MCtx([TB, GB], unwind=max(n, 0) + 8, stubs=stubs)
+    m.record('fakevt', {8 * j: (Ptr(('func', 'vf$slot%d' % j), 0), 8) for j in range(nslots)}, const=True)
+    m.record('other', {0: (Ptr('fakevt', 0), 8), 8: (NULL, 8), 16: (NULL, 8), 32: (BV(0), 8)})
+    m.record('ctrl', {0: (NULL, 8), 8: (z3.BitVecVal(1, 32), 4), 12: (z3.BitVecVal(1, 32), 4)})
+    st0 = State({}, m.mem, z3.BoolVal(True))
+    vt = m.eng.global_ptr(st0, '@_ZTVN7awkward12TupleBuilderE', mod)
+    tb = {0: (Ptr(vt.obj, 16), 8), 8: (Ptr('tb', 0), 8), 16: (Ptr('ctrl', 0), 8), fo[1]: (BV(8), 8), fo[1] + 8: (z3.FPVal(1.5, z3.Float64()), 8),
+          fo[2]: (NULL, 8), fo[2] + 8: (NULL, 8), fo[2] + 16: (NULL, 8), fo[3]: (BV(-1), 8), fo[4]: (z3.BitVecVal(0, 8), 1), fo[5]: (BV(-1), 8)}
+    this = m.record('tb', tb)
+    m.record('ret', {})
+    out = m.call('_ZN7awkward12TupleBuilder10begintupleEl', [Ptr('ret', 0), this, BV(n)])
+    obls = [('raises exactly for a negative number of fields', z3.simplify(out.raised) != z3.BoolVal(n < 0)),
+            ('a fresh tuple builder takes the tuple itself (no union is made)', z3.Or(handed + [z3.BoolVal(False)]))]
+    if n >= 0:
+        o = out.mem.o['tb']
+        vb, ve = o.cells[fo[2]][0], o.cells[fo[2] + 8][0]
+        nb = m.eng.ptrtoint_sized(State({}, out.mem, z3.BoolVal(True)), ve) - m.eng.ptrtoint_sized(State({}, out.mem, z3.BoolVal(True)), vb) if n else BV(0)
+        obls += [('the tuple is open with no field selected', z3.Or(o.cells[fo[4]][0] == 0, o.cells[fo[5]][0] != -1)), ('it has exactly n field builders', z3.simplify(nb) != 16 * n),
+                 ('no tuple is closed yet', o.cells[fo[3]][0] != 0)]
+
+    def replay(model, ent_):
+        import subprocess, os
+        drv = r'''
+#include <cstdio>
+#include <cstdlib>
+#include <stdexcept>
+#include "awkward/builder/ArrayBuilder.h"
+#include "awkward/builder/ArrayBuilderOptions.h"
+#include "awkward/Content.h"
+using namespace awkward;
+int main(int argc, char** argv) {
+  long n = atol(argv[1]);
+  ArrayBuilder b(ArrayBuilderOptions(8, 1.5));
+  bool raised = false;
+  try { b.begintuple(n); for (long i = 0; i < n; i++) { b.index(i); b.integer(i); } b.endtuple(); } catch (std::invalid_argument& e) { raised = true; }
+  int bad = (raised != (n < 0)) ? 1 : 0;
+  if (!raised && b.length() != 1) bad |= 2;
+  printf("bad=%d raised=%d\n", bad, (int)raised);
+  return bad ? 1 : 0;
+}
+'''
+        try:
+            exe = fullnative_link(drv)
+        except Exception as e:      # noqa
+            return False, 'replay driver did not build: %s' % str(e)[-600:], {}
+        try:
+            r = subprocess.run([exe, str(n)], capture_output=True, text=True, timeout=60,
+                               env=dict(os.environ, ASAN_OPTIONS='detect_leaks=0', UBSAN_OPTIONS='halt_on_error=1:exitcode=87'), errors='replace')
+        except subprocess.TimeoutExpired:
+            return True, 'ArrayBuilder::begintuple(%d): the native run does not return' % n, dict(n=n)
+        payload = dict(n=n, native=r.stdout.strip())
+        if r.returncode != 0:
+            return True, 'ArrayBuilder::begintuple(%d): native builder gives %s %s' % (n, r.stdout.strip(), [l[:160] for l in r.stderr.splitlines() if 'ERROR' in l or 'runtime error' in l][:1]), payload
+        return False, 'native builder agrees (%s)' % r.stdout.strip(), payload
+    return mdischarge(m, 'TupleBuilder::begintuple(%d) on a fresh builder' % n, obls, [], replay=replay, extra=dict(bounds='number of fields concrete (case split)'))
+
+
+_jobs_endtuple = jobs
+
+
+def jobs(tier):
+    return _jobs_endtuple(tier) + [(h_tuple_begintuple, (n,), 900) for n in ((-1, 0, 2) if tier == 'quick' else (-3, -1, 0, 1, 2, 3))]
